@@ -9,7 +9,7 @@ Scenarios ==
   {[cmd |-> "report", format |-> f, output |-> o, fault |-> x, target |-> t] :
       f \in {"plain", "json"}, o \in {"stdout", "file"}, x \in ReportFaults, t \in {"absent", "old"}}
   \cup {[cmd |-> "report", format |-> "pdf", output |-> o, fault |-> x, target |-> t] :
-      o \in {"default", "file"}, x \in ReportFaults \cup {"default_pdf_exists"}, t \in {"absent", "old"}}
+      o \in {"default", "default2", "file"}, x \in ReportFaults \cup {"default_pdf_exists"}, t \in {"absent", "old"}}
   \cup {[cmd |-> "parse", format |-> "json", output |-> "stdout", fault |-> x, target |-> "absent"] : x \in {"none", "missing_input", "parse_error"}}
   \cup {[cmd |-> "convert", format |-> "dsl", output |-> o, fault |-> x, target |-> t] :
       o \in {"stdout", "file"}, x \in {"none", "missing_input", "bad_export", "rsu_without_awards", "unwritable_output"}, t \in {"absent", "old"}}
@@ -17,7 +17,7 @@ Scenarios ==
 Stageable(s) ==
   /\ (s.output = "stdout" => s.target = "absent")
   /\ (s.fault = "unwritable_output" => s.output = "file" /\ s.target = "absent")
-  /\ (s.fault = "default_pdf_exists" <=> (s.output = "default" /\ s.target = "old"))
+  /\ (s.fault = "default_pdf_exists" <=> (s.output \in DefaultOutputs /\ s.target = "old"))
 
 MCInit == \E s \in {x \in Scenarios : Stageable(x)} : CliInit(s)
 MCSpec == MCInit /\ [][CliNext]_clivars
